@@ -137,6 +137,10 @@ def variants_for(pid: str) -> List[dict]:
     # an ANALYSIS-ERROR (exit 2) counts as failure too
     for d in sorted((VERIF / "selftest" / "neutral").glob("*/patch.diff")):
         out.append({"name": f"neutral:{d.parent.name}", "diff": f"selftest/neutral/{d.parent.name}/patch.diff", "fires": None})
+    # changes that do alter behaviour (messages, new parameters, caching, earlier validation ..) but keep every property
+    # (selftest/benign): silent as well
+    for d in sorted((VERIF / "selftest" / "benign").glob("*/patch.diff")):
+        out.append({"name": f"benign:{d.parent.name}", "diff": f"selftest/benign/{d.parent.name}/patch.diff", "fires": None})
     return out
 
 
